@@ -89,6 +89,17 @@ def case_term(case, fired=None):
     if case.get('ext'):
         return 'obs_of (run_x (table_beh %s) (%s) 0 %s (mkSt %s %s) [])' % (
             tbl, _ext_term(case, fired or []), coqrun.zlist(case['pkts']), regs, coqrun.zlist(case['alls']))
+    if case.get('reads') is not None:
+        rs, i = [], 0
+        for w in case['reads']:
+            if w == 'p':
+                if i < len(case['pkts']):
+                    rs.append('RPacket %d' % case['pkts'][i])
+                    i += 1
+            else:
+                rs.append('RNone' if w == 'n' else 'RRaise')
+        return 'obs_of (run_stream (table_beh %s) 0 [%s] (mkSt %s %s) [])' % (
+            tbl, '; '.join(rs), regs, coqrun.zlist(case['alls']))
     return 'obs_of (run (table_beh %s) 0 %s (mkSt %s %s) [])' % (
         tbl, coqrun.zlist(case['pkts']), regs, coqrun.zlist(case['alls']))
 
@@ -292,6 +303,37 @@ def ext_enum_cases():
                        'ext': {p1: [o1], p2: [o2]}}
 
 
+def _with_reads(rng, case):
+    """Outcomes of the link's receive_packet calls: timeouts and failing reads (OSError / Exception) at random places —
+    first call, after a packet, after a timeout, several in a row."""
+    reads = []
+    p_fault = rng.choice([0.05, 0.15, 0.3])
+    for _ in case['pkts']:
+        while rng.random() < 0.25:
+            reads.append('n')
+        while rng.random() < p_fault:
+            reads.append(rng.choice(['e', 'x']))
+        reads.append('p')
+    while rng.random() < 0.4:
+        reads.append(rng.choice(['n', 'e', 'x']))
+    case['reads'] = reads
+    return case
+
+
+def read_fault_cases():
+    """Fixed streams: a failing read as first call, after one packet, after a timeout, twice in a row, between packets, at
+    the end; two registrations on the port, one other; with and without an all-packet callback."""
+    regs = [[2, 255, 0, 0, 1], [2, 255, 0, 0, 2], [3, 255, 0, 0, 3]]
+    out = []
+    for reads in (['e', 'p', 'p'], ['p', 'e', 'p'], ['p', 'x', 'p'], ['p', 'n', 'e', 'p'], ['p', 'e', 'e', 'p'],
+                  ['p', 'p', 'x', 'x', 'x', 'p'], ['n', 'x', 'p'], ['p', 'p', 'p', 'e'], ['p', 'n', 'p', 'n', 'e', 'n', 'p']):
+        npk = reads.count('p')
+        for alls in ([], [ALL_BASE]):
+            out.append({'regs': [list(r) for r in regs], 'alls': list(alls), 'pkts': [0x2C, 0x3C, 0x21][:npk] + [0x2C] * max(0, npk - 3),
+                        'beh': {}, 'reads': list(reads)})
+    return out
+
+
 def enum_cases(depth):
     """Small-scope enumeration: registrations a,b,c(,d) on one port, each callback's first script drawn from an
     alphabet of registry operations; one or two packets."""
@@ -364,6 +406,9 @@ def tie(ctx):
     cases += list(ext_enum_cases())
     for _ in range(ctx.scale(300, 6000)):
         cases.append(gen_ext_case(ctx.rng, oracle=ctx.rng.random() < 0.3))
+    cases += read_fault_cases()
+    for _ in range(ctx.scale(200, 4000)):
+        cases.append(_with_reads(ctx.rng, gen_case(ctx.rng, oracle=ctx.rng.random() < 0.3)))
     terms, exp, ress = [], [], []
     for c in cases:
         res = drv.run_case(c)
@@ -391,7 +436,7 @@ def tie(ctx):
         dis.append({'what': 'total disagreements', 'count': nd})
     seen = set()
     nontriv = 0
-    dist = {'cases': len(cases), 'cases_with_other_thread_operations': 0, 'other_thread_hand_overs': 0, 'max_raises_by_one_callback': 0, 'cases_with_10_or_more_raises_by_one_callback': 0, 'dispatcher_died': 0, 'with_raise': 0, 'with_dup_regs': 0, 'invocations': 0,
+    dist = {'cases': len(cases), 'cases_with_failing_reads': 0, 'loops_ended_by_a_failing_read': 0, 'cases_with_other_thread_operations': 0, 'other_thread_hand_overs': 0, 'max_raises_by_one_callback': 0, 'cases_with_10_or_more_raises_by_one_callback': 0, 'dispatcher_died': 0, 'with_raise': 0, 'with_dup_regs': 0, 'invocations': 0,
             'by_regs': {}, 'by_packets': {}}
     for c, r in zip(cases, ress):
         h = runner.sha(c)
@@ -404,6 +449,8 @@ def tie(ctx):
         dist['with_raise'] += 1 if any(o[0] == 'raise' for scs in c['beh'].values() for sc in scs for o in sc) else 0
         dist['with_dup_regs'] += 1 if len({tuple(x) for x in c['regs']}) < len(c['regs']) else 0
         dist['invocations'] += len(r['log'])
+        dist['cases_with_failing_reads'] += 1 if any(w in ('e', 'x') for w in (c.get('reads') or [])) else 0
+        dist['loops_ended_by_a_failing_read'] += 1 if r.get('read_fault_death') else 0
         dist['cases_with_other_thread_operations'] += 1 if r.get('fired') else 0
         dist['other_thread_hand_overs'] += len(r.get('fired') or [])
         mr = _max_raises(c, r)
@@ -502,12 +549,15 @@ def check_case(case):
                 'detail': detail}
     if res['diverged']:
         return fail('dispatch_does_not_terminate', 'more than %d callback invocations' % (drv.MAX_CALLS + 40 * len(case['pkts'])))
-    if res['died'] is not None or res['consumed'] != len(case['pkts']):
+    # an exception of link.receive_packet that ends the loop is an OBSERVATION (the text isolates exceptions of port
+    # callbacks only): the packets handed out so far are still judged, each exactly once
+    if (res['died'] is not None and not res.get('read_fault_death')) or \
+            (res['died'] is None and res['consumed'] != len(case['pkts'])):
         return fail('dispatcher_loop_ended_by_exception', 'run() left by %s after %d packets' % (res['died'], res['consumed']))
     pks = [n for _, n in log]
     if pks != sorted(pks) or any(n < 0 for n in pks):
         return fail('packets_not_in_arrival_order', 'packet numbers in the invocation log are not non-decreasing')
-    for n, h in enumerate(case['pkts']):
+    for n, h in enumerate(case['pkts'][:res['consumed']]):
         rec = spec.recs[n]
         ents = [c for c, m in log if m == n]
         pe = [c for c in ents if c < ALL_BASE]
@@ -551,6 +601,9 @@ def oracle(ctx, deep=False):
     cases += list(ext_enum_cases())
     for _ in range(ctx.scale(3000, 60000) * (3 if deep else 1)):
         cases.append(gen_ext_case(ctx.rng, oracle=True))
+    cases += read_fault_cases()
+    for _ in range(ctx.scale(2000, 40000) * (3 if deep else 1)):
+        cases.append(_with_reads(ctx.rng, gen_case(ctx.rng, oracle=True)))
     for _ in range(ctx.scale(20000, 300000) * (3 if deep else 1)):
         cases.append(gen_case(ctx.rng, oracle=True))
     seen_cls = set()
@@ -591,10 +644,20 @@ def _shrink(f):
                 c2 = dict(case, **{key: case[key][:i] + case[key][i + 1:]})
                 if key == 'pkts' and case.get('plens') is not None:
                     c2['plens'] = case['plens'][:i] + case['plens'][i + 1:]
+                if key == 'pkts' and case.get('reads') is not None:
+                    pos = [j for j, w in enumerate(case['reads']) if w == 'p']
+                    if i < len(pos):
+                        c2['reads'] = case['reads'][:pos[i]] + case['reads'][pos[i] + 1:]
                 if len(c2['pkts']) and attempt(c2):
                     changed = True
                 else:
                     i += 1
+        j = 0
+        while case.get('reads') is not None and j < len(case['reads']):
+            if case['reads'][j] != 'p' and attempt(dict(case, reads=case['reads'][:j] + case['reads'][j + 1:])):
+                changed = True
+            else:
+                j += 1
         for key in list(case.get('ext') or {}):
             e2 = {k: v for k, v in case['ext'].items() if k != key}
             if attempt(dict(case, ext=e2)):
